@@ -328,7 +328,8 @@ func (fc *FnCtx) exec(st *State, s ast.Stmt) []Outcome {
 		fc.execDefer(st, x)
 		return []Outcome{{kind: oFall, st: st}}
 	case *ast.GoStmt:
-		panic(unsupported("go statement"))
+		fc.execGo(st, x)
+		return []Outcome{{kind: oFall, st: st}}
 	case *ast.SelectStmt:
 		return fc.execSelect(st, x)
 	case *ast.SendStmt:
@@ -339,6 +340,9 @@ func (fc *FnCtx) exec(st *State, s ast.Stmt) []Outcome {
 			pkg := fc.e.pkgs[ci.Pkg]
 			sc := &evalCtx{fc: fc, st: st, spec: true, scope: map[string]Value{ci.Ch: c, ci.Msg: v}, pkg: pkg, noLocals: true, pol: 1}
 			fc.oblige(st, "send", sc.evalBool(ci.Expr), x.Pos(), "channel invariant of "+ci.Elem+" at the send "+exprText(x.Chan)+" <- "+exprText(x.Value)+": "+ci.Text)
+		}
+		if ec.closableChan(x.Chan) {
+			fc.oblige(st, "send", Select(chanOpenArr(st), c), x.Pos(), "send on "+exprText(x.Chan)+": the channel must be open (a send on a closed channel panics) - nothing keeps another goroutine from closing it here")
 		}
 		// blocking (and so deadlock freedom) is not modelled: the statement is taken to complete
 		return []Outcome{{kind: oFall, st: st}}
@@ -588,6 +592,60 @@ func (fc *FnCtx) execSelect(st *State, x *ast.SelectStmt) []Outcome {
 		return fc.execBlock(s, other.Body)
 	},
 		func(s *State) []Outcome { return fc.execBlock(s, def.Body) })
+}
+
+// execGo: `go func(params) { body }(args)` - the arguments are evaluated here; the body is verified as the start of a
+// new goroutine: it holds no lock, everything reachable through pointers may have been changed by the time it runs,
+// and so may the openness of channels. Its obligations are named <function>$goN#...; what it does to the state is
+// invisible to the spawning function (which continues at once). `go f(args)` with a named function: the arguments are
+// evaluated, the callee runs under its own contract (if any) elsewhere.
+func (fc *FnCtx) execGo(st *State, x *ast.GoStmt) {
+	ec := fc.ec(st)
+	fl, ok := ast.Unparen(x.Call.Fun).(*ast.FuncLit)
+	if !ok {
+		for _, a := range x.Call.Args {
+			ec.eval(a)
+		}
+		if sel, ok := x.Call.Fun.(*ast.SelectorExpr); ok {
+			ec.eval(sel.X)
+		}
+		return
+	}
+	var args []Value
+	for _, a := range x.Call.Args {
+		args = append(args, ec.eval(a))
+	}
+	t := st.Clone()
+	for k := range t.ghost {
+		if strings.HasPrefix(k, "lock:") || strings.HasPrefix(k, "rlock:") {
+			t.ghost[k] = False
+		}
+		if strings.HasPrefix(k, "chanown:") || strings.HasPrefix(k, "chanfresh:") {
+			t.ghost[k] = False // the new goroutine made none of them
+		}
+	}
+	tec := fc.ec(t)
+	var ptrs []Value
+	for _, v := range t.vars {
+		ptrs = append(ptrs, v)
+	}
+	tec.havocReachable(nil, ptrs)
+	fc.e.forgetChanOpen(t)
+	i := 0
+	for _, fld := range fl.Type.Params.List {
+		for _, n := range fld.Names {
+			if obj := fc.info.Defs[n]; obj != nil && i < len(args) {
+				t.Declare(obj, args[i])
+			}
+			i++
+		}
+	}
+	fc.counters["go"]++
+	saved := fc.nameSuffix
+	fc.nameSuffix = fmt.Sprintf("%s@go%d", saved, fc.counters["go"])
+	defer func() { fc.nameSuffix = saved }()
+	fc.execBlock(t, fl.Body.List)
+	fc.e.notes = appendUnique(fc.e.notes, "go statements: the body of a function literal is verified as a new goroutine (no lock held, shared memory and channel openness arbitrary); the spawning function does not wait for it")
 }
 
 // execBlockingSelect: a select without default - one of the communications happens (which one is not known; that one
@@ -1207,7 +1265,19 @@ func (fc *FnCtx) execDefer(st *State, x *ast.DeferStmt) {
 					s.vars[r] = rets[i]
 				}
 			}
+			nDefers := len(s.defers)
 			outs := fc.execBlock(s, fl.Body.List)
+			// defers registered inside the deferred closure run when the closure returns
+			for k := range outs {
+				os := outs[k].st
+				if len(os.defers) > nDefers {
+					inner := os.defers[nDefers:]
+					os.defers = os.defers[:nDefers]
+					for j := len(inner) - 1; j >= 0; j-- {
+						inner[j].run(os, nil)
+					}
+				}
+			}
 			if len(outs) != 1 {
 				// merge not attempted: require single outcome
 				var falls []Outcome
